@@ -7,10 +7,10 @@ Three parts (DESIGN §8, C13):
   template, `//`, `/* */`), for every hole through which a generator splices user-controlled text into an
   artifact, the text as embedded by the code stays inside the hole's context and leaves the automaton in the
   state it found it — so nothing after the hole changes its lexical meaning (`C13_holes_lexState`).
-  Full strength for schema descriptions (after fix ce7cb8c `*/ ↦ *\/`), string arguments in double-quoted
-  positions and names; FALSE, with witnesses, for string arguments in the single-quoted operation text (F13),
-  for `generated_file_header` (CR, U+2028, U+2029 end the `//` comment) and for source file paths in the
-  resolver import (`'`, `\`): there the provable part carries the hypothesis `Hole.safe`.
+  Full strength for schema descriptions (after fix ce7cb8c `*/ ↦ *\/`), string arguments in the single-quoted
+  operation text (after fix dc59a0f, F13) and in double-quoted positions, and names; FALSE, with witnesses, for
+  `generated_file_header` (CR, U+2028, U+2029 end the `//` comment) and for source file paths in the resolver
+  import (`'`, `\`): there the provable part carries the hypothesis `Hole.safe`.
 * `C13_imports…`: the path arithmetic of every import template of the generators, and closure of an
   artifact plan.  That the plan of the REAL generator is closed is established by the oracle on every
   compiled project (imports are read back from the implementation's artifacts), not by a theorem; it is
@@ -28,8 +28,8 @@ open IsoVerif.TsLex IsoVerif.Core.Imports
 def C13_holes_statement_at (h : Hole) (t : Text) : Prop :=
   h.domain t = true → holeOk h (h.embed t) = true
 
-/-- Every hole, every text of its domain that meets the hole's `safe` condition (`true` for descriptions,
-double-quoted string values and names). -/
+/-- Every hole, every text of its domain that meets the hole's `safe` condition (`true` for descriptions, string
+arguments in both quoted positions and names). -/
 theorem C13_holes_partial (h : Hole) (t : Text) (hs : h.safe t = true) : C13_holes_statement_at h t :=
   fun hd => holeOk_of_safe h t hd hs
 
@@ -43,7 +43,7 @@ theorem C13_holes_strDouble (t : Text) : C13_holes_statement_at .strDouble t := 
 theorem C13_holes_name (t : Text) : C13_holes_statement_at .name t := C13_holes_partial .name t rfl
 
 example : Hole.domain .desc [116, 104, 101, 32, 42, 47, 32, 101, 118, 105, 108] = true := by decide   -- "the */ evil"
-example : Hole.safe .strSingle [97, 32, 98] = true := by decide
+example : Hole.domain .strSingle [105, 116, 39, 115, 32, 92, 34] = true := by simp [Hole.domain, strArgDomain, isBmp]   -- `it's \"`
 
 theorem term_neutral (h : Hole) : run h.fam.base h.term = h.fam.base := by
   cases h <;> rfl
@@ -57,13 +57,14 @@ theorem C13_holes_lexState (h : Hole) (t pre suf : Text) (hd : h.domain t = true
   simp only [holeOk, Bool.and_eq_true, beq_iff_eq] at hok
   rw [lex_lift pre (h.embed t ++ h.term) suf _ hpre hok.2, lex_lift pre h.term suf _ hpre (term_neutral h)]
 
-/-- F13: `it's` as a string argument ends the single-quoted operation text (open finding). -/
-theorem C13_witness_single_quote : ¬ C13_holes_statement_at .strSingle [105, 116, 39, 115] := by
-  intro h
-  have hd : Hole.domain .strSingle [105, 116, 39, 115] = true := by
-    simp [Hole.domain, strArgDomain, isBmp]
-  have := h hd
-  revert this
+/-- Full strength: string arguments in the single-quoted operation text (after fix dc59a0f: `\` ↦ `\\`, `'` ↦ `\'`). -/
+theorem C13_holes_strSingle (t : Text) : C13_holes_statement_at .strSingle t := C13_holes_partial .strSingle t rfl
+
+/-- F13 is fixed (dc59a0f): `it's` as a string argument stays inside the single-quoted operation text; spliced
+verbatim (the code before the fix) it ended the string. -/
+theorem C13_fixed_witness_F13 :
+    holeOk .strSingle (Hole.embed .strSingle [105, 116, 39, 115]) = true ∧
+    holeOk .strSingle [105, 116, 39, 115] = false := by
   decide
 
 /-- `generated_file_header: "a\rb"` passes the config check (`lines().count() == 1`) and puts `b` into code
